@@ -21,6 +21,8 @@ import (
 type c01Case struct {
 	Parents int  `json:"parents"` // 0, 1 (L<-P) or 2 (L<-P<-G)
 	Ops     []op `json:"ops"`
+	// Hooks installs the cron state hooks (as sys.System does).
+	Hooks bool `json:"hooks,omitempty"`
 }
 
 var c01Locs = []string{"L", "P", "G"}
@@ -70,7 +72,14 @@ func genC01(t *rapid.T) c01Case {
 		case "remRule":
 			c.Ops = append(c.Ops, op{K: "remRule", Loc: loc, Id: id})
 		case "addFact":
-			c.Ops = append(c.Ops, op{K: "addFact", Loc: loc, Id: id, Doc: gen.Map(t, gen.Opts{}, 1, l+".fact")})
+			doc := gen.Map(t, gen.Opts{}, 1, l+".fact")
+			if rapid.IntRange(0, 3).Draw(t, l+".rulish?") == 0 {
+				// a fact whose "rule" is not a rule body: plain data
+				// without the cron hooks, refused by them (and then the
+				// rule it would have overwritten must stay in force)
+				doc = M{"rule": rapid.SampledFrom([]interface{}{"x", 5.0, true, A{"a"}}).Draw(t, l+".rulish")}
+			}
+			c.Ops = append(c.Ops, op{K: "addFact", Loc: loc, Id: id, Doc: doc})
 		case "enable":
 			// a child may disable an inherited rule
 			tid := id
@@ -103,6 +112,7 @@ func genC01(t *rapid.T) c01Case {
 			c.Ops = append(c.Ops, op{K: "event", Loc: "L", Doc: e})
 		}
 	}
+	c.Hooks = rapid.IntRange(0, 2).Draw(t, "hooks") == 0
 	return c
 }
 
@@ -118,6 +128,9 @@ func runC01(c c01Case) *vlib.Outcome {
 	}
 	for _, kind := range []string{"indexed", "linear"} {
 		w := newWorld(kind, nil, o)
+		if c.Hooks {
+			w.withCronHooks()
+		}
 		for i := 0; i <= c.Parents; i++ {
 			if _, err := w.open(c01Locs[i]); err != nil {
 				o.Fail("OPEN", "cannot create location: %v", err)
